@@ -285,6 +285,10 @@ pub fn c18_upcast() -> i32 {
         let mut d = DerivesRegistry::new();
         d.add_derives_for_all([a.clone(), b.clone()]);
         d.add_attributes_for_all([attr.clone()]);
+        // registrations for specific paths (plain and recursive) must not leak into a struct built by upcast_composite
+        d.add_derives_for(syn::parse_quote!(m::Other), [syn::parse_quote!(OnlyForOther)], false);
+        d.add_derives_for(syn::parse_quote!(m::Root), [syn::parse_quote!(OnlyRecursive)], true);
+        d.add_attributes_for(syn::parse_quote!(m::Root), [syn::parse_quote!(#[rec])], true);
         settings.derives = d;
         if with_ca { settings.compact_as_type_path = Some(ca.clone()); }
         settings.insert_codec_attributes = codec;
